@@ -6,6 +6,7 @@ Spec/C06), whose chunk limits, channels, struct formats and lock discipline are 
 import CfVerif.Proofs.C06Safety
 import CfVerif.Proofs.C06Read
 import CfVerif.Proofs.C06Write
+import CfVerif.Proofs.C06Live
 namespace CfVerif.C06
 open CfVerif
 
@@ -381,6 +382,85 @@ theorem write_ack_progress {s : St} (hs : s.Ok) {id : Nat} {w : WReq} {rest : Li
     refine ⟨by simp, ?_⟩
     rw [hqset]
     cases rest <;> simp [nextStarted, WReq.afterChunk]
+
+/-! ## next_request_served: afterwards further requests are still served
+
+After ANY history of the closed system (`hwf`: well-formed requests; forged packets, faults, drops, everything else
+allowed), a new request on a memory that has no request of that kind recorded is served: there is a continuation -
+at most `len + 1` deliveries of the newest packet in flight - after which it has completed with SUCCESS (device
+range respected, no error status forced).  Nothing left behind by the history (a lock, a record, a stale packet)
+can prevent it.  (That no *adversarial* continuation can do worse than delay it is the content of the safety
+theorems above: at most one notification, failure on error/drop, exact data on success.) -/
+
+theorem reachable_state_ok (d : Device) (faults : List UInt8) (acts : List Act) (hwf : ∀ a ∈ acts, a.WF) :
+    (runSys Variant.fixed (Sys.init d faults) acts).host.Ok := by
+  obtain ⟨evs, h1, h2, _⟩ := runSys_project (Sys.init d faults) acts hwf
+  rw [h2]; exact run_ok St.init_ok h1
+
+theorem next_read_served (d : Device) (faults : List UInt8) (acts : List Act) (hwf : ∀ a ∈ acts, a.WF)
+    (id : Nat) (hid : id < 256) (m : Image) (tag addr len : Nat)
+    (hnone : dget? (runSys Variant.fixed (Sys.init d faults) acts).host.reads id = none)
+    (hdev : (runSys Variant.fixed (Sys.init d faults) acts).dev[id]? = some m)
+    (hf : ∀ f ∈ (runSys Variant.fixed (Sys.init d faults) acts).faults, f = 0)
+    (hreq : (Ev.read tag id addr len).WF) (hin : addr + len ≤ m.length) :
+    ∃ more : List Act, more.length ≤ len + 1 ∧ (∀ a ∈ more, ∃ i, a = .deliver i false) ∧
+      Out.readOk tag id addr (slice m addr len) ∈
+        (runSys Variant.fixed (Sys.init d faults) (acts ++ .read tag id addr len :: more)).outs := by
+  have hok := reachable_state_ok d faults acts hwf
+  have hs := ReadServing.start hid hok hnone hdev hf hreq hin
+  obtain ⟨n, hn, hmem⟩ := ReadServing.complete hid len (Nat.le_refl _) hs
+  refine ⟨deliverLastActs n (stepSys Variant.fixed (runSys Variant.fixed (Sys.init d faults) acts) (.read tag id addr len)), ?_, ?_, ?_⟩
+  · have : ∀ n y, (deliverLastActs n y).length = n := by
+      intro n; induction n with
+      | zero => intro y; rfl
+      | succ n ih => intro y; simp [deliverLastActs, ih]
+    rw [this]; exact hn
+  · have : ∀ n y, ∀ a ∈ deliverLastActs n y, ∃ i, a = Act.deliver i false := by
+      intro n; induction n with
+      | zero => intro y a ha; cases ha
+      | succ n ih =>
+        intro y a ha
+        rcases List.mem_cons.1 ha with rfl | ha
+        · exact ⟨_, rfl⟩
+        · exact ih _ a ha
+    exact this n _
+  · rw [deliverLastN_eq_runSys] at hmem
+    simp only [runSys, List.foldl_append, List.foldl_cons] at hmem ⊢
+    simpa [RReq.new] using hmem
+
+theorem next_write_served (d : Device) (faults : List UInt8) (acts : List Act) (hwf : ∀ a ∈ acts, a.WF)
+    (id : Nat) (hid : id < 256) (m : Image) (tag addr : Nat) (data : List UInt8) (flush p : Bool)
+    (hempty : (runSys Variant.fixed (Sys.init d faults) acts).host.queue id = [])
+    (hdev : (runSys Variant.fixed (Sys.init d faults) acts).dev[id]? = some m)
+    (hf : ∀ f ∈ (runSys Variant.fixed (Sys.init d faults) acts).faults, f = 0)
+    (hreq : (Ev.write tag id addr data flush p).WF) (hin : addr + data.length ≤ m.length) :
+    ∃ more : List Act, more.length ≤ data.length + 1 ∧ (∀ a ∈ more, ∃ i, a = .deliver i false) ∧
+      Out.writeOk tag id addr ∈
+        (runSys Variant.fixed (Sys.init d faults) (acts ++ .write tag id addr data flush p :: more)).outs ∧
+      (runSys Variant.fixed (Sys.init d faults) (acts ++ .write tag id addr data flush p :: more)).host.queue id = [] := by
+  have hok := reachable_state_ok d faults acts hwf
+  have hs := WriteServing.start hid hok hempty hdev hf hreq hin
+  have hrl : ((WReq.new tag id addr data p).afterChunk).rest.length ≤ data.length := by
+    simp [WReq.afterChunk, WReq.new]
+  obtain ⟨n, hn, hmem, hq⟩ := WriteServing.complete hid data.length hrl hs
+  refine ⟨deliverLastActs n (stepSys Variant.fixed (runSys Variant.fixed (Sys.init d faults) acts) (.write tag id addr data flush p)), ?_, ?_, ?_⟩
+  · have : ∀ n y, (deliverLastActs n y).length = n := by
+      intro n; induction n with
+      | zero => intro y; rfl
+      | succ n ih => intro y; simp [deliverLastActs, ih]
+    rw [this]; exact hn
+  · have : ∀ n y, ∀ a ∈ deliverLastActs n y, ∃ i, a = Act.deliver i false := by
+      intro n; induction n with
+      | zero => intro y a ha; cases ha
+      | succ n ih =>
+        intro y a ha
+        rcases List.mem_cons.1 ha with rfl | ha
+        · exact ⟨_, rfl⟩
+        · exact ih _ a ha
+    exact this n _
+  · rw [deliverLastN_eq_runSys] at hmem hq
+    simp only [runSys, List.foldl_append, List.foldl_cons] at hmem hq ⊢
+    exact ⟨by simpa [WReq.afterChunk, WReq.new] using hmem, hq⟩
 
 /-! ## D9: the code before the repair -/
 
